@@ -312,6 +312,14 @@ PROPS = {
         extra=[extra_erased],
         level_text="Translation + proof + correspondence: the table of forwarders and conversions is regenerated from the source on every run and proved verbatim / complete in Coq (Props/C16.v); the same director scripts are run direct and with every operation routed through TellHandler / AskHandler / ActorControl and their weak variants (built via From, Box::new, clone_boxed, downgrade, upgrade, as_control, as_weak_control): observations must be identical and accepted by the model.",
     ),
+    "C17": dict(
+        props_file="Props/C17.v",
+        families=[("block", NONE, 40), ("core", NONE, 30)],
+        thorough_scale=8,
+        projection="full", monitors=["C01", "C02", "C03", "C10", "C13"],
+        level_text="Proof (model) + bounded observation on real threads: blocking and deprecated calls are desugared to the same operation futures (theorems of C01-C03, C09, C10, C13 quantify over the send path); real rsactor is driven on a multi-thread runtime with std threads / spawn_blocking / calls inside the runtime, wall-clock ticks of 800 ms, and every round is accepted by the model (results, order, dead-letter labels, which calls are still blocked).",
+        level_note="Partial: thread blocking, the helper thread and its private runtime, and wall-clock bounds are runtime behaviour the model cannot exhibit; they are checked by observation with margins (a mismatching real-time script is re-run twice before it counts).",
+    ),
     "C18": dict(
         props_file="Props/C18.v",
         families=[("core", ("dd", "metrics", "testutils", "tracing"), 60)],
